@@ -66,6 +66,52 @@ def special_bytes():
     return sorted(sp)
 
 
+def check_p8_pairs(k, res):
+    """"The Unicode text stored in .p8 files", exhaustively over byte pairs: all 65 536 pairs (LF / CR excepted) as comment
+    lines of real .p8 files, 16 first bytes per cart; cart 16: byte strings that are themselves the UTF-8 encoding of a
+    table spelling (text that LOOKS already converted must still be converted), alone and doubled."""
+    import io
+    from pico8.game.formatter.p8 import P8Formatter
+    from lib import carts
+    lua = _mods()
+    lines = []
+    if k < 16:
+        for a in range(16 * k, 16 * k + 16):
+            for b in range(256):
+                if a in (0, 10, 13) or b in (0, 10, 13):
+                    continue
+                lines.append(b'--' + bytes([a, b]) + b'|\n')
+    else:
+        for c in range(256):
+            enc = lua.p8scii_to_unicode(bytes([c])).encode('utf-8')
+            if b'\n' in enc or b'\r' in enc or b'\x00' in enc:
+                continue
+            lines.append(b'--' + enc + b'|\n')
+            lines.append(b'--' + enc + enc + b' ' + enc + b'\n')      # (comments only: the writer may re-spell quoted strings)
+    code = b''.join(lines)
+    res.evaluations += 1
+    res.count('p8_file_pair_lines', len(lines))
+    res.nontriv(('p8pairs', k))
+    case = {'kind': 'p8pairs', 'k': k}
+    try:
+        g = carts.make_game({}, version=33, code_lines=[code])
+        buf = io.BytesIO()
+        P8Formatter.to_file(g, buf, filename='t.p8')
+        raw = buf.getvalue()
+        raw.decode('utf-8')
+        back = b''.join(P8Formatter.from_file(io.BytesIO(raw), filename='t.p8').lua.to_lines())
+    except Exception as e:
+        res.violation('C15|p8file|pairs|raise|%s' % type(e).__name__, 'writing/reading the .p8 of pair cart %d raised %r' % (k, e), case)
+        return
+    if back != code:
+        a_l, b_l = code.split(b'\n'), back.split(b'\n')
+        j = next((i for i in range(min(len(a_l), len(b_l))) if a_l[i] != b_l[i]), min(len(a_l), len(b_l)))
+        res.violation('C15|p8file|pairs|mismatch|%s' % ('utf8-lookalike' if k == 16 else 'pair'),
+                      '.p8 write/read changed the line %r into %r' % (a_l[j] if j < len(a_l) else None, b_l[j] if j < len(b_l) else None), case)
+    else:
+        res.outcome(('p8pairs', k == 16))
+
+
 def long_payloads():
     """One-line payloads whose length, in P8SCII characters or in the UTF-8 bytes of their .p8 spelling, sits on either
     side of 2^15 and 2^16 (the code limit is 65535 characters; a glyph takes 3-7 UTF-8 bytes)."""
@@ -117,6 +163,7 @@ def shards(tier, seed):
     items.append(('triples', tier))
     items.append(('p8file',))
     items += [('longlines', k) for k in range(len(long_payloads()))]
+    items += [('p8pairs', k) for k in range(16)] + [('p8pairs', 16)]
     return items
 
 
@@ -161,6 +208,11 @@ def run_shard(item):
             for b in range(256):
                 check_string(bytes([a, b]), res)
         res.sample({'bytes': bytes([item[1], 0x8e])})
+        return res
+    if item[0] == 'p8pairs':
+        check_p8_pairs(item[1], res)
+        if item[1] == 0:
+            res.sample({'p8pairs': 'every byte pair as a comment line of a .p8 file (4096 lines per cart)', 'line': b'--\xc2\xa5|\n'})
         return res
     if item[0] == 'longlines':
         check_longline(item[1], res)
@@ -248,7 +300,9 @@ def run_shard(item):
 
 def replay(case):
     res = ShardResult()
-    if case.get('kind') == 'longline':
+    if case.get('kind') == 'p8pairs':
+        check_p8_pairs(case['k'], res)
+    elif case.get('kind') == 'longline':
         check_longline(case['k'], res)
     elif case.get('kind') == 'p8file':
         res.merge(run_shard(('p8file',)))
